@@ -526,6 +526,18 @@ func harnessAPI(name string) (IntrinsicFn, bool) {
 			in.ghost["basicauth"] = TupleV{E: []Value{args[0], args[1], args[2], args[3]}}
 			return nil
 		}, true
+	case "verifChunkReader":
+		return func(in *Interp, _ *frame, fn *ssa.Function, args []Value, pos tokenPos) Value {
+			m := &bufrModel{}
+			if sl, ok := args[0].(SliceV); ok && sl.arr != nil {
+				for _, e := range sliceElems(sl) {
+					m.chunks = append(m.chunks, in.toStrArg(e, pos))
+				}
+			}
+			o := in.newObj(OpaqueV{Tag: "bufr", Data: m}, fn.Signature.Results().At(0).Type().(*types.Pointer).Elem(), "chunk reader")
+			o.heap = true
+			return PtrV{obj: o}
+		}, true
 	case "verifEncoded":
 		return func(in *Interp, _ *frame, fn *ssa.Function, args []Value, _ tokenPos) Value {
 			return in.mkSlice(append([]Value{}, in.encoded...), fn.Signature.Results().At(0).Type().Underlying().(*types.Slice).Elem())
